@@ -347,6 +347,11 @@ def run(ck, ctx):
                 ungathered = _ungathered
                 idxs = {g.vn(ungathered(n.args[1])): ungathered(n.args[1]) for n in subs}
                 used = {tab_ids[n.args[0].id] for n in subs}
+                if not subs:
+                    # the layer parameters are not gathered by an index array at all (one function per table row, constants
+                    # bound row by row, ...): a form these obligations cannot read - undecided, not a verdict
+                    raise AnalysisError(f"{tag}: the layer tables are not read through a layer-index array (no gather "
+                                        "of a layer table by an index found); the layer selection is not decided")
                 ck.ob("R19.2", f"{tag}: all layer tables are indexed by the same layer-index term", len(idxs) == 1,
                       r.value, fname, f"{len(subs)} table look-ups, {len(idxs)} distinct index term(s), tables {sorted(used)}")
                 ck.floor("R19.2", len(subs), 4, f"layer-table look-ups in {fname}")
